@@ -1033,7 +1033,7 @@ pub fn trace_events(s: &Scenario, rec: &RunRecord) -> Vec<Value> {
         "T_Rewind1", "T_Rewind2", "E_End", "V_Begin", "V_Ts", "V_Scan", "T_Unconf", "V_End", "V_Notify",
         "N_Notify", "N_Register", "N_Park", "F_Loop", "F_ValLoad", "F_Lock", "F_Decide", "F_Final", "F_Publish",
         "F_Pred", "C_Loop", "C_FinLoad", "C_Take", "C_Nonce", "C_Apply", "C_Publish", "D_Commit", "C_Pred", "A_Abort",
-        "A_Cancel", "M_Post", "S_Tx", "M_Path",
+        "A_Cancel", "M_Post", "S_Tx", "M_Path", "E_Res", "H_Rec", "S_Begin", "M_Install",
     ];
     let mut out = Vec::new();
     for e in rec.events.iter().filter(|e: &&Event| (e.group & verif::group::SCHED != 0 && KEEP.contains(&e.label)) ||
